@@ -161,6 +161,12 @@ def check_fill(c, solvent, quantity, result, exc, where):
                       {'quantity': quantity, 'exc': repr(exc)[:300], 'container': F.snap_contents(c)})
         return
     if verdict == 'infeasible':
+        if reason == 'solvent_has_no_measure':
+            # the (possibly non-finite) result is the recorded finding's own outcome: keep the object so that SANE does
+            # not report it again at the nested or at the plate level
+            if len(M.kf03_objects) > 500:
+                M.kf03_objects.clear()
+            M.kf03_objects[id(result)] = result
         M.violate(['C03', 'C11'], 'FEAS', f'C03:infeasible_fill_accepted:{reason}:{base}' +
                   (':enzymes_present' if has_enz and reason == 'below_current' else ''),
                   {'quantity': quantity, 'solvent': solvent.name, 'reason': reason,
@@ -213,6 +219,8 @@ class HContainerFillTo(Handler):
         if not isinstance(solvent, pp.Substance) or not isinstance(quantity, str):
             return
         check_fill(self_, solvent, quantity, result, exc, 'container' if M.depth == 1 else 'well')
+        if exc is None and id(result) in M.kf03_objects:
+            return
         if exc is None:
             H1.check_returned(result, 'Container.fill_to')
             from . import instr
